@@ -9,6 +9,46 @@ from vlib.symex import Ob
 ASPECT = 'C01'
 
 
+def h_create_type_params_bounds(eng, lang):
+    """_create_type_params_from_etype (the class created on the fly for an expected attribute type that mentions type
+    variables of the current scope): the class is afterwards instantiated with those type variables as arguments, so the
+    bound of every mapped type parameter must admit the variable it stands for -- also when gen_type_params drew a bound"""
+    from src.ir import ast, types as tp
+    from vlib.props.C17 import make_generator
+    from vlib.symrandom import installed, config
+    from vlib.ref import World, show
+    shape = int(eng.fresh_int(0, 4, 'shape'))
+    g = make_generator(lang, False, True)
+    f = g.bt_factory
+    Aa = g.context.get_classes(ast.GLOBAL_NAMESPACE)['Aa'].get_type()
+    T, U, V = tp.TypeParameter('T'), tp.TypeParameter('U', bound=f.get_integer_type()), tp.TypeParameter('V', bound=Aa)
+    Gt = g.context.get_classes(ast.GLOBAL_NAMESPACE)['Gg'].get_type()
+    etype = {0: T, 1: Gt.new([T]), 2: Gt.new([Gt.new([U])]), 3: Gt.new([V]), 4: V}[shape]
+    g.namespace = ast.GLOBAL_NAMESPACE + ('Cls',)
+    with installed(eng, max_sym_draws=8) as rnd, config(limits__max_type_params=2, prob__bounded_type_parameters=0.5):
+        tps, tvm, can_wild = g._create_type_params_from_etype(etype)
+        log = list(rnd.log)
+    w = World()
+    w.top = w.snap(f.get_any_type())
+    case = dict(unit='_create_type_params_from_etype', language=lang, etype=str(etype), type_parameters=[str(t) for t in tps],
+                mapping={str(k): str(v) for k, v in tvm.items()}, rng=log[:10])
+    obs = []
+    for var, par in tvm.items():
+        pb = w.snap(par.bound) if par.bound is not None else None
+        vb = w.snap(var.bound) if var.bound is not None else None
+        ok = pb is None or pb == w.top or (vb is not None and (vb == pb or w.sub(vb, pb)))
+        obs.append(Ob('create_type_params|bound-of-the-parameter-admits-the-type-variable-it-stands-for', ok,
+                      dict(case, variable=str(var), parameter=str(par))))
+        if par.bound is not None:
+            eng.event('bounded-parameter')
+    obs.append(Ob('create_type_params|every-type-variable-mapped', len(tvm) >= 1 and all(p in tps for p in tvm.values()), case))
+    names = [t.name for t in tps]
+    obs.append(Ob('create_type_params|parameter-names-unique', len(names) == len(set(names)), case))
+    eng.event('created')
+    eng.notes['sample'] = case
+    return obs
+
+
 def jobs(tier):
     out = []
     langs = ['java', 'kotlin'] if tier == 'quick' else U.LANGS
@@ -34,6 +74,13 @@ def jobs(tier):
                        bounds='expected type one of Kk<in Bb>, Kk<out Bb>, Kk<Bb> for the class Kk<T3 : Bb> (Bb : Aa); every RNG '
                               'outcome', outside=U.OUT))
     out += UC.jobs(ASPECT, tier, langs)
+    from src.generators.generator import Generator
+    for lang in langs:
+        out.append(Job('create_type_params-bounds-%s' % lang, h_create_type_params_bounds, dict(lang=lang), split_depth=5,
+                       functions=[Generator._create_type_params_from_etype, Generator.gen_type_params], stubs=U.STUBS[:1],
+                       require_events=['created', 'bounded-parameter'], crosscheck_every=200, budget_s=900,
+                       bounds='etype in {T, Gg<T>, Gg<Gg<U : Int>>, Gg<V : Aa>, V : Aa}; <=2 type parameters, bounds drawn with '
+                              'probability 0.5; every RNG outcome of the first 8 draws', outside=U.OUT))
     return out
 
 
